@@ -68,11 +68,13 @@ pub fn classify_panic(payload: Box<dyn Any + Send>, model: bool) -> Outcome {
     } else {
         "<non-string panic payload>".to_string()
     };
-    let kind = if msg == RESERVE_MSG {
+    // the kind of a panic is recognised by the error text it carries, wherever in the message (only C05 cares whether
+    // the message is exactly the error's: see C05.panic_message)
+    let kind = if msg.contains(RESERVE_MSG) {
         PanicKind::Reserve
-    } else if msg.starts_with("an error occurred when formatting")
-        || msg.starts_with("a Display implementation returned an error")
-        || msg.starts_with("a formatting trait implementation returned an error")
+    } else if msg.contains("an error occurred when formatting")
+        || msg.contains("a Display implementation returned an error")
+        || msg.contains("a formatting trait implementation returned an error")
     {
         PanicKind::Fmt
     } else if model {
